@@ -195,7 +195,11 @@ def _decompress_body_gzip(data: bytes, *, max_output_size: int | None = None) ->
     chunks: list[bytes] = []
     total = 0
     remaining = data
-    while remaining or do.unconsumed_tail:
+    # ``not do.eof``: once the member's trailer has been read, zlib parks whatever
+    # follows it in ``unconsumed_tail`` as well as ``unused_data`` and hands it back
+    # unchanged on every further call; a loop that only watches ``unconsumed_tail``
+    # then never terminates on "member + any trailing byte".
+    while (remaining or do.unconsumed_tail) and not do.eof:
         if do.unconsumed_tail:
             inbuf = do.unconsumed_tail
         else:
@@ -208,7 +212,7 @@ def _decompress_body_gzip(data: bytes, *, max_output_size: int | None = None) ->
             chunks.append(chunk)
         if not chunk and not do.unconsumed_tail:
             break
-    tail = do.flush()
+    tail = b"" if do.eof else do.flush()
     if tail:
         total += len(tail)
         if total > max_output_size:
